@@ -384,6 +384,45 @@ def mem_write(idx: uint256, v: uint256) -> (uint256, DynArray[uint256, 4], uint2
     return x, b, y
 """
 
+# runtime-sized (free-memory-pointer) allocations: raw_call forwarding msg.data, create_copy_of
+DYN = f"""
+@external
+def fwd(target: address, q: uint256) -> (uint256, uint256[3], Bytes[128], uint256):
+    c0: uint256 = {C0}
+    arr: uint256[3] = [q, q + 1, q + 2]
+    r: Bytes[128] = raw_call(target, msg.data, max_outsize=128)
+    c1: uint256 = {C1}
+    return c0, arr, r, c1
+
+@internal
+def _echo(t: address, k: uint256) -> Bytes[96]:
+    m: uint256[4] = [k, k + 1, k + 2, k + 3]
+    r: Bytes[96] = raw_call(t, msg.data, max_outsize=96)
+    assert m[0] == k and m[3] == k + 3
+    return r
+
+@external
+def loop_fwd(t: address, n: uint256) -> (uint256, Bytes[96], uint256[2], uint256):
+    c0: uint256 = {C0}
+    acc: Bytes[96] = b""
+    keep: uint256[2] = [n, n + 7]
+    for i: uint256 in range(3):
+        if i >= n:
+            break
+        acc = self._echo(t, i)
+        first: Bytes[96] = raw_call(t, msg.data, max_outsize=96)
+        assert first == acc
+    return c0, acc, keep, {C1}
+
+@external
+def copy_of(target: address, q: uint256) -> (uint256, address, uint256[2], uint256):
+    c0: uint256 = {C0}
+    keep: uint256[2] = [q, q + 1]
+    a: address = create_copy_of(target)
+    b: Bytes[32] = raw_call(0x0000000000000000000000000000000000000004, msg.data, max_outsize=32)
+    return c0, a, keep, {C1}
+"""
+
 CTOR = f"""
 IA: immutable(uint256)
 IB: immutable(uint256[3])
@@ -768,6 +807,40 @@ def _run(ctx, cfgs, comp, viol, stats, rnd):
                     viol("concat of bytesM operands at the end of a callee frame: result or the caller's adjacent variable changed",
                          CONCATM, cfg, f"{sig} data=0x{data.hex()}", exp, got)
                     return n_cases, True
+        # ---------------- runtime-sized allocations (raw_call with msg.data, create_copy_of)
+        out = comp(DYN, cfg)
+        ch = Chain(cfg.evm)
+        addr = ch.deploy(bytes.fromhex(out["bytecode"][2:]))
+        ident = 4
+        for q in (0, 5, 2**255):
+            data = method_id("fwd(address,uint256)") + w(ident) + w(q)
+            r = ch.call(addr, data)
+            got = decode(["uint256", "uint256[3]", "bytes", "uint256"], r.out) if r.ok else None
+            exp = (C0, tuple((q + i) % 2**256 for i in range(3)), data[:128], C1)
+            n_cases += 1
+            stats["dynamic"] = stats.get("dynamic", 0) + 1
+            if q != 2**255 and got != exp or (q == 2**255 and got != exp):
+                viol("raw_call forwarding msg.data (runtime-sized buffer): neighbours changed or wrong output", DYN, cfg, f"fwd(0x04, {q})", exp, got)
+                return n_cases, True
+        for n in range(4):
+            data = method_id("loop_fwd(address,uint256)") + w(ident) + w(n)
+            r = ch.call(addr, data)
+            got = decode(["uint256", "bytes", "uint256[2]", "uint256"], r.out) if r.ok else None
+            exp = (C0, data[:96] if n else b"", (n, n + 7), C1)
+            n_cases += 1
+            stats["dynamic"] = stats.get("dynamic", 0) + 1
+            if got != exp:
+                viol("runtime-sized buffers in a loop / internal call: neighbours changed or wrong output", DYN, cfg, f"loop_fwd(0x04, {n})", exp, got)
+                return n_cases, True
+        data = method_id("copy_of(address,uint256)") + w(int(addr, 16)) + w(9)
+        r = ch.call(addr, data)
+        got = decode(["uint256", "address", "uint256[2]", "uint256"], r.out) if r.ok else None
+        n_cases += 1
+        stats["dynamic"] = stats.get("dynamic", 0) + 1
+        if got is None or got[0] != C0 or got[2] != (9, 10) or got[3] != C1 or ch.code(got[1]) != ch.code(addr):
+            viol("create_copy_of (runtime-sized scratch): neighbours changed or the copy differs from the target's code", DYN, cfg,
+                 "copy_of(self, 9)", "(C0, <copy with identical code>, (9, 10), C1)", got)
+            return n_cases, True
         # ---------------- constructor: dynamic allocation next to staged immutables
         out = comp(CTOR, cfg)
         for n, blob in ((0, b"12345"), (3, b"hello world"), (10, bytes(range(100)))):
